@@ -32,6 +32,9 @@ def run(ctx):
     ctx.each(flowalg.flush_formula_rule, ctx, repo, "R05i")
     ctx.each(r05k, ctx, repo)
     ctx.each(r05n, ctx, repo)
+    from . import c06 as _c06
+
+    ctx.each(_c06.r06o, ctx, repo)  # a timed duration given by a function is evaluated before the keyring is sized
     ctx.each(flowalg.share_rule, ctx, repo, "R05m")  # a junction inside a duration group passes every keyring row on in full: the share algebra per row
     ctx.each(flowalg.kind_dispatch_rule, ctx, repo, "R05l")
     ctx.each(discretise.snap_tolerance_rule, ctx, repo, "R05j", [("model", _row_count_helper(repo))])
